@@ -97,8 +97,8 @@ func (ex *Exec) step(st *State, in ssa.Instruction) {
 			_ = xt
 			g.needByteAt()
 			idx := ex.toMathInt(ex.val(x.Index), x.Index.Type())
-			ex.safetyOb("index", x.Name(), fmt.Sprintf("(and (>= %s 0) (< %s (str.len %s)))", idx, idx, ex.val(x.X)))
-			ex.setVal(x, ex.byteVal(fmt.Sprintf("(str.at %s %s)", ex.val(x.X), idx)))
+			ex.safetyOb("index", x.Name(), fmt.Sprintf("(and (>= %s 0) (< %s (st.len %s)))", idx, idx, ex.val(x.X)))
+			ex.setVal(x, ex.byteVal(fmt.Sprintf("(st.at %s %s)", ex.val(x.X), idx)))
 		default:
 			unsup("index on %s", x.X.Type())
 		}
@@ -189,8 +189,8 @@ func (ex *Exec) step(st *State, in ssa.Instruction) {
 }
 
 func (g *Gen) needByteAt() {
-	g.decl("fn:str.at", "(declare-fun str.at (Str Int) Int)")
-	g.decl("ax:str.at", "(assert (forall ((s Str) (i Int)) (! (and (>= (str.at s i) 0) (< (str.at s i) 256)) :pattern ((str.at s i)))))")
+	g.decl("fn:st.at", "(declare-fun st.at (Str Int) Int)")
+	g.decl("ax:st.at", "(assert (forall ((s Str) (i Int)) (! (and (>= (st.at s i) 0) (< (st.at s i) 256)) :pattern ((st.at s i)))))")
 }
 
 func (ex *Exec) byteVal(intTerm string) string {
@@ -284,7 +284,7 @@ func (ex *Exec) indexAddr(st *State, x *ssa.IndexAddr) {
 	case *types.Slice:
 		s := ex.val(x.X)
 		ex.safetyOb("index", x.Name(), fmt.Sprintf("(and (>= %s 0) (< %s (s.len %s)))", idx, idx, s))
-		ex.addrs[x] = &Addr{kind: akElem, comp: g.arrComp(xt.Elem()), base: fmt.Sprintf("(s.arr %s)", s), idx: fmt.Sprintf("(+ (s.off %s) %s)", s, idx), rootT: xt.Elem(), ty: xt.Elem()}
+		ex.addrs[x] = &Addr{kind: akElem, comp: g.arrComp(xt.Elem()), base: fmt.Sprintf("(s.arr %s)", s), idx: fmt.Sprintf("(sl.ix %s %s)", s, idx), rootT: xt.Elem(), ty: xt.Elem()}
 	case *types.Pointer:
 		at := xt.Elem().Underlying().(*types.Array)
 		ex.safetyOb("index", x.Name(), fmt.Sprintf("(and (>= %s 0) (< %s %d))", idx, idx, at.Len()))
@@ -313,8 +313,8 @@ func (ex *Exec) lookup(st *State, x *ssa.Lookup) {
 		// string index
 		g.needByteAt()
 		idx := ex.toMathInt(ex.val(x.Index), x.Index.Type())
-		ex.safetyOb("index", x.Name(), fmt.Sprintf("(and (>= %s 0) (< %s (str.len %s)))", idx, idx, ex.val(x.X)))
-		ex.setVal(x, ex.byteVal(fmt.Sprintf("(str.at %s %s)", ex.val(x.X), idx)))
+		ex.safetyOb("index", x.Name(), fmt.Sprintf("(and (>= %s 0) (< %s (st.len %s)))", idx, idx, ex.val(x.X)))
+		ex.setVal(x, ex.byteVal(fmt.Sprintf("(st.at %s %s)", ex.val(x.X), idx)))
 		return
 	}
 	m := ex.val(x.X)
@@ -392,9 +392,9 @@ func (ex *Exec) sliceOp(st *State, x *ssa.Slice) {
 		g.needSubstr()
 		s := ex.val(x.X)
 		lo := getIdx(x.Low, "0")
-		hi := getIdx(x.High, fmt.Sprintf("(str.len %s)", s))
-		ex.safetyOb("slice-bounds", x.Name(), fmt.Sprintf("(and (<= 0 %s) (<= %s %s) (<= %s (str.len %s)))", lo, lo, hi, hi, s))
-		ex.setVal(x, fmt.Sprintf("(str.sub %s %s %s)", s, lo, hi))
+		hi := getIdx(x.High, fmt.Sprintf("(st.len %s)", s))
+		ex.safetyOb("slice-bounds", x.Name(), fmt.Sprintf("(and (<= 0 %s) (<= %s %s) (<= %s (st.len %s)))", lo, lo, hi, hi, s))
+		ex.setVal(x, fmt.Sprintf("(st.sub %s %s %s)", s, lo, hi))
 	case *types.Pointer:
 		at := xt.Elem().Underlying().(*types.Array)
 		if _, ok := ex.addrs[x.X]; ok {
@@ -413,9 +413,9 @@ func (ex *Exec) sliceOp(st *State, x *ssa.Slice) {
 }
 
 func (g *Gen) needSubstr() {
-	g.decl("fn:str.sub", "(declare-fun str.sub (Str Int Int) Str)")
-	g.decl("ax:str.sub", "(assert (forall ((s Str) (a Int) (b Int)) (! (=> (and (<= 0 a) (<= a b) (<= b (str.len s))) (= (str.len (str.sub s a b)) (- b a))) :pattern ((str.sub s a b)))))")
-	g.decl("ax:str.sub2", "(assert (forall ((s Str)) (! (= (str.sub s 0 (str.len s)) s) :pattern ((str.len s)))))")
+	g.decl("fn:st.sub", "(declare-fun st.sub (Str Int Int) Str)")
+	g.decl("ax:st.sub", "(assert (forall ((s Str) (a Int) (b Int)) (! (=> (and (<= 0 a) (<= a b) (<= b (st.len s))) (= (st.len (st.sub s a b)) (- b a))) :pattern ((st.sub s a b)))))")
+	g.decl("ax:st.sub2", "(assert (forall ((s Str)) (! (= (st.sub s 0 (st.len s)) s) :pattern ((st.len s)))))")
 }
 
 // ---------- interfaces ----------
